@@ -387,6 +387,7 @@ func (sl *slicer) visitFreeVar(fv *ssa.FreeVar, ctx *frame) {
 func (sl *slicer) visitLoad(ld *ssa.UnOp, ctx *frame) {
 	s := sl.s
 	p := s.p
+	s.Values[ld.X] = true
 	switch a := ld.X.(type) {
 	case *ssa.Alloc:
 		// local variable spilled to memory: the stores that reach this load
